@@ -224,6 +224,7 @@ struct AtDir {
 }
 
 enum Piece {
+    Item(usize, String),
     Import(usize, String, String),
     Prelude(String, usize, String),
     Struct(usize, String),
@@ -282,6 +283,11 @@ fn parse_unit(path: &str) -> (Vec<Piece>, Vec<(String, String)>) {
                 let (u, anchor) = a.trim().split_once(' ').unwrap_or_else(|| bail!("line {}: import <unit> <anchor>", i + 1));
                 let inc = std::path::Path::new(path).parent().unwrap().join(u.trim());
                 pieces.push(Piece::Import(i + 1, inc.to_string_lossy().to_string(), anchor.trim().to_string()));
+                i += 1;
+                continue;
+            }
+            if let Some(a) = rest.strip_prefix("item ") {
+                pieces.push(Piece::Item(i + 1, a.trim().to_string()));
                 i += 1;
                 continue;
             }
@@ -855,6 +861,11 @@ fn main() {
                 out.text.push_str(l);
                 out.text.push('\n');
             }
+            Piece::Item(ln, anchor) => {
+                let (file, path) = anchor.split_once("::").unwrap_or_else(|| bail!("line {}: bad anchor {}", ln, anchor));
+                let src = srcs.entry(file.to_string()).or_insert_with(|| Src::load(root, file));
+                emit_item(src, path, &mut out, &mut functions);
+            }
             Piece::Struct(ln, anchor) => {
                 let (file, path) = anchor.split_once("::").unwrap_or_else(|| bail!("line {}: bad anchor {}", ln, anchor));
                 let src = srcs.entry(file.to_string()).or_insert_with(|| Src::load(root, file));
@@ -921,6 +932,57 @@ fn main() {
         "bound_map": bound_map,
     });
     std::fs::write(out_manifest, serde_json::to_string(&manifest).unwrap()).unwrap();
+}
+
+fn emit_item(src: &Src, name: &str, out: &mut Out, functions: &mut Vec<Value>) {
+    // enums and consts: copied verbatim from the first token after the attributes
+    let mut found: Option<(usize, usize)> = None;
+    fn walk(src: &Src, items: &[syn::Item], name: &str, found: &mut Option<(usize, usize)>) {
+        for it in items {
+            match it {
+                syn::Item::Enum(e) if e.ident == name => {
+                    let whole = src.range(e.span());
+                    let start = match &e.vis {
+                        syn::Visibility::Inherited => src.range(e.enum_token.span()).0,
+                        v => src.range(v.span()).0,
+                    };
+                    *found = Some((start, whole.1));
+                }
+                syn::Item::Const(c) if c.ident == name => {
+                    let whole = src.range(c.span());
+                    let start = match &c.vis {
+                        syn::Visibility::Inherited => src.range(c.const_token.span()).0,
+                        v => src.range(v.span()).0,
+                    };
+                    *found = Some((start, whole.1));
+                }
+                syn::Item::Mod(m) => {
+                    if let Some((_, its)) = &m.content {
+                        walk(src, its, name, found)
+                    }
+                }
+                _ => {}
+            }
+        }
+    }
+    walk(src, &src.file.items, name, &mut found);
+    let (start, end) = found.unwrap_or_else(|| bail!("lost anchor: item {}::{}", src.rel, name));
+    let k = out.next_id;
+    out.next_id += 1;
+    let _ = write!(out.text, "/*{{item:{}*/", k);
+    let mut edits: Vec<Edit> = vec![];
+    let head = &src.text[start..];
+    if !head.starts_with("pub ") && !head.starts_with("pub(") {
+        // RV: item visibility widened so that public specifications can name it
+        edits.push(Edit { start, end: start, rule: "RV".into(), parts: vec![lit("pub ")], origin: None, prio: 0 });
+    } else if head.starts_with("pub(") {
+        let close = head.find(')').unwrap() + 1;
+        edits.push(Edit { start, end: start + close, rule: "RV".into(), parts: vec![lit("pub")], origin: None, prio: 0 });
+    }
+    render(src, &edits, start, end, out, 0);
+    let _ = writeln!(out.text, "/*item:{}}}*/", k);
+    functions.push(json!({"kind": "item", "anchor": format!("{}::{}", src.rel, name), "file": src.rel, "item_id": k,
+        "start": start, "end": end, "line": src.line_of(start), "text": &src.text[start..end]}));
 }
 
 fn emit_struct(src: &Src, name: &str, bm: &[(String, String)], out: &mut Out, functions: &mut Vec<Value>) {
@@ -993,6 +1055,15 @@ fn emit_struct(src: &Src, name: &str, bm: &[(String, String)], out: &mut Out, fu
             edits.push(Edit { start: r.0, end: r.1, rule: rule.into(), parts: vec![], origin: None, prio: 0 });
         }
     }
+    {
+        let head = &src.text[start..];
+        if !head.starts_with("pub ") && !head.starts_with("pub(") {
+            edits.push(Edit { start, end: start, rule: "RV".into(), parts: vec![lit("pub ")], origin: None, prio: 0 });
+        } else if head.starts_with("pub(") {
+            let close = head.find(')').unwrap() + 1;
+            edits.push(Edit { start, end: start + close, rule: "RV".into(), parts: vec![lit("pub")], origin: None, prio: 0 });
+        }
+    }
     let k = out.next_id;
     let _ = write!(out.text, "/*{{item:{}*/", k);
     out.next_id += 1;
@@ -1038,6 +1109,7 @@ fn emit_fn(src: &Src, path: &str, fd: &FnDir, bm: &[(String, String)], unit: &st
 
     let mut edits: Vec<Edit> = vec![];
     let mut lost: Vec<String> = vec![];
+    let mut lost_hints: Vec<Value> = vec![];
 
     // ---- signature
     // `mut self` receiver (R12)
@@ -1124,6 +1196,7 @@ fn emit_fn(src: &Src, path: &str, fd: &FnDir, bm: &[(String, String)], unit: &st
         Some(syn::Stmt::Expr(e, None)) => src.range(e.span()).0,
         _ => body_close.0,
     };
+    let mut hint_edits: Vec<Edit> = vec![];
     for (k, at) in fd.ats.iter().enumerate() {
         let words: Vec<&str> = at.pos.splitn(2, ' ').collect();
         let pos: Option<usize> = match words[0] {
@@ -1173,7 +1246,7 @@ fn emit_fn(src: &Src, path: &str, fd: &FnDir, bm: &[(String, String)], unit: &st
                         }
                     }
                     None => {
-                        lost.push(format!("at {} (pattern matches {} statements)", at.pos, cands.len()));
+                        lost_hints.push(json!({"fn": format!("{}::{}", src.rel, path), "at": at.pos, "clause": at.clause, "matches": cands.len(), "vrs_line": at.vrs_line}));
                         continue;
                     }
                 }
@@ -1181,7 +1254,7 @@ fn emit_fn(src: &Src, path: &str, fd: &FnDir, bm: &[(String, String)], unit: &st
             _ => None,
         };
         match pos {
-            Some(p) => edits.push(Edit {
+            Some(p) => hint_edits.push(Edit {
                 start: p,
                 end: p,
                 rule: "SPLICE".into(),
@@ -1189,8 +1262,14 @@ fn emit_fn(src: &Src, path: &str, fd: &FnDir, bm: &[(String, String)], unit: &st
                 origin: Some(format!("hint:{}:{}:{}", if at.clause.is_empty() { "-" } else { &at.clause }, unit, at.vrs_line)),
                 prio: if words[0] == "after" { -50 + k as i32 } else { 50 + k as i32 },
             }),
-            None => lost.push(format!("at {}", at.pos)),
+            None => lost_hints.push(json!({"fn": format!("{}::{}", src.rel, path), "at": at.pos, "clause": at.clause, "matches": 0, "vrs_line": at.vrs_line})),
         }
+    }
+
+    // the hints of a function are one proof script: if any of them cannot be re-attached to the
+    // (changed) code, none is spliced; the contract itself stays
+    if lost_hints.is_empty() {
+        edits.extend(hint_edits);
     }
 
     // ---- declared textual substitutions (rule RS; must match exactly once)
@@ -1251,7 +1330,7 @@ fn emit_fn(src: &Src, path: &str, fd: &FnDir, bm: &[(String, String)], unit: &st
     functions.push(json!({"kind": if imported { "imported-contract" } else { "fn" }, "imported_from": fd.imported_from, "anchor": format!("{}::{}", src.rel, path), "file": src.rel, "item_id": k,
         "start": fn_start, "end": fn_end, "line": src.line_of(fn_start), "end_line": src.line_of(fn_end),
         "impl_header": impl_hdr, "text": &src.text[fn_start..fn_end],
-        "loops": loops.len(), "statements": stmts.len()}));
+        "loops": loops.len(), "statements": stmts.len(), "lost_hints": lost_hints}));
     if imported {
         return;
     }
